@@ -16,3 +16,6 @@ mod literal;
 mod matcher;
 mod non_matching;
 mod strip;
+
+#[cfg(feature = "verif-hooks")]
+pub mod verif;
